@@ -189,23 +189,32 @@ let oracle_e ops obs =
 
 (* ================================================================= dl *)
 (* the world of the harness: file 0 = libvdl_a.so, 1 = libvdl_b.so, 2 = the program itself, >= 3 missing;
-   symbol 0 = vdl_f (a, b), 1 = vdl_g (a, b), 2 = vdl_only_a (a), 3 = vdl_self (program), >= 4 missing *)
+   symbol 0 = vdl_f (a, b), 1 = vdl_g (a, b AND, as a different function, the program), 2 = vdl_only_a (a),
+   3 = vdl_self (program), >= 4 missing *)
 let d_world = { lib_exists = (fun f -> inn f < 3);
-                sym_exists = (fun lib s -> let l = inn lib and s = inn s in (l < 2 && s < 2) || (l = 0 && s = 2) || (l = 2 && s = 3)) }
+                sym_exists = (fun lib s -> let l = inn lib and s = inn s in (l < 2 && s < 2) || (l = 0 && s = 2) || (l = 2 && (s = 3 || s = 1))) }
 let d_fun lib s x = match lib, s with
   | 0, 0 -> x + 100 | 0, 1 -> 2 * x + 1 | 0, 2 -> x * x + 7
   | 1, 0 -> x + 200 | 1, 1 -> 3 * x + 2
   | 2, 3 -> x + 900
+  | 2, 1 -> x + 7000      (* the program has its own, different vdl_g *)
   | _ -> -1
 (* wire operations of a dl case: a model operation (quiet = the handler does not read the diagnostic at once), a scoped
    open+load with the dl object INSIDE the try block (expands to DOpen t f; DLoad i t s; DDrop t on a scratch slot t), or a
    later read of the k-th caught exception *)
 type dwire = WOp of dop * bool | WScoped of nat * nat * nat * nat * bool | WRead of nat
+           | WTemp of nat * nat * nat * nat   (* load on a temporary copy of library object j (scratch slot t): DCopy t j; DLoad i t s; DDrop t *)
 let d_parse_wire s = match sp '.' s with
   | ["op"; i; f] -> WOp (DOpen (ni (ios i), ni (ios f)), false)
   | ["oq"; i; f] -> WOp (DOpen (ni (ios i), ni (ios f)), true)
   | ["ld"; i; j; s] -> WOp (DLoad (ni (ios i), ni (ios j), ni (ios s)), false)
   | ["lq"; i; j; s] -> WOp (DLoad (ni (ios i), ni (ios j), ni (ios s)), true)
+  (* the value category of the library object (named lvalue / std::move(named) / temporary) is a driver-side dimension:
+     the model has ONE load, on the handle *)
+  | ["lm"; i; j; s] -> WOp (DLoad (ni (ios i), ni (ios j), ni (ios s)), false)
+  | ["lt"; i; j; t; s] -> WTemp (ni (ios i), ni (ios j), ni (ios t), ni (ios s))
+  | ["tc"; i; t; f; s] -> WScoped (ni (ios i), ni (ios t), ni (ios f), ni (ios s), false)
+  | ["tq"; i; t; f; s] -> WScoped (ni (ios i), ni (ios t), ni (ios f), ni (ios s), true)
   | ["sc"; i; t; f; s] -> WScoped (ni (ios i), ni (ios t), ni (ios f), ni (ios s), false)
   | ["sq"; i; t; f; s] -> WScoped (ni (ios i), ni (ios t), ni (ios f), ni (ios s), true)
   | ["rx"; k] -> WRead (ni (ios k))
@@ -262,6 +271,14 @@ let model_d n ops =
                 ignore (run_op (DDrop t) false); r2
               end
             end
+        | WTemp (i, j, t, sy) ->
+            if not (slot_empty !xs.xd i && slot_empty !xs.xd t && i <> t
+                    && (match slot_owner !xs.xd j with Some (OLib (Some _)) -> true | _ -> false)) then "skip"
+            else begin
+              ignore (run_op (DCopy (t, j)) false);
+              let r2 = run_op (DLoad (i, t, sy)) false in
+              ignore (run_op (DDrop t) false); r2
+            end
         | WRead k ->
             (match snd (x_step d_world !xs (XRead k)) with
              | XDiag (Some dle) -> "diag:" ^ (if dle <> None && dle = List.nth !expected (inn k) then "1" else "0") ^ "11"
@@ -306,7 +323,7 @@ let oracle_d n ops obs =
         let good =
           if k < List.length ops then begin
             let wop = List.nth ops k in
-            let quiet = (match wop with WOp (_, q) -> q | WScoped (_, _, _, _, q) -> q | WRead _ -> false) in
+            let quiet = (match wop with WOp (_, q) -> q | WScoped (_, _, _, _, q) -> q | WRead _ | WTemp _ -> false) in
             let raised = if quiet then "raise:-" else "raise:1" in   (* the dl exception, with the diagnostic when read at once *)
             if String.length r >= 5 && String.sub r 0 5 = "raise" then incr ncaught;
             let own i = slot_owner !prev i in
@@ -318,6 +335,17 @@ let oracle_d n ops obs =
                  (* a caught exception carries the diagnostic of ITS failure and what() names the file/symbol, the same
                     text whenever it is read *)
                  (if inn kx < !ncaught then r = "diag:111" else r = "skip") && unchanged
+             | WTemp (i, j, t, sy) ->
+                 (* a symbol loaded through a temporary copy of the library object is a symbol of that library: same
+                    function, one more owner of the same handle; nothing else changes *)
+                 (match own j with
+                  | Some (OLib (Some h)) when slot_empty !prev i && slot_empty !prev t && i <> t ->
+                      let lib = (match nth_error !prev.hs h with Some rr -> rr.hlib | None -> ni 99) in
+                      if d_world.sym_exists lib sy then
+                        (names.(inn i) <- inn sy;
+                         r = "ok" && same_hs && now i = Some (Some (OSym (Some h, ni 0, ni 0))) && d_others_same !prev.slots st.slots [inn i])
+                      else r = raised && unchanged
+                  | _ -> r = "skip" && unchanged)
              | WScoped (i, t, f, sy, _) ->
                  if not (slot_empty !prev i && slot_empty !prev t && i <> t) then r = "skip" && unchanged
                  else if not (d_world.lib_exists f) then r = raised && unchanged
